@@ -3,6 +3,7 @@ from __future__ import annotations
 
 import datetime
 
+from .. import core
 from ..probe import call
 from ..ref import bits, cpr
 from .. import cprgen
@@ -148,8 +149,8 @@ def mkcase(rng, lat, lon, dist_nm=None, order=None):
     gap = rng.choice((1, 2, 5, 9, 0.5, 0.4))
     te, to = (base + gap, base) if o == "e" else (base, base + gap) if o == "o" else (base, base)
     return {"p0": [lat, lon], "p1": [lat1, lon1], "tc": tc, "ss": rng.randrange(4), "saf": rng.randrange(2),
-            "alt": [rng.getrandbits(12), rng.getrandbits(12)], "tbit": rng.randrange(2), "df": rng.choice((17, 17, 18)),
-            "ca": rng.randrange(8), "addr": rng.getrandbits(24), "te": te, "to": to,
+            "alt": [rng.fill(12), rng.fill(12)], "tbit": rng.randrange(2), "df": rng.choice((17, 17, 18)),
+            "ca": rng.randrange(8), "addr": rng.fill(24), "te": te, "to": to,
             "dt": rng.random() < 0.15, "api": rng.choice(("position", "airborne_position")),
             "lower": rng.choice((0, 0, 0, 0, 0, 0, 0, 1, 2, 3))}
 
@@ -160,7 +161,7 @@ def cases(ctx):
     i = 0
     # directed: every band x hemisphere x newer parity
     import random as _r
-    drng = _r.Random(12345)  # seed independent
+    drng = core.Rng(12345)  # seed independent
     for nl in range(1, 60):
         for sgn in (1, -1):
             for order in ("e", "o"):
